@@ -281,15 +281,18 @@ def run(ctx):
 
 
     # adding a fragment of one sequence never discards other sequences (except by expiry)
-    ctx.rule('C09.3-no-bulk-discard', 'nothing reachable from start_fragment / add_fragment empties or bulk-filters `pending` other than the expiry sweep (retain on last_update/timeout in cleanup_expired): '
+    ctx.rule('C09.3-no-bulk-discard', 'nothing reachable from the receive path (Connection::receive_message) or from start_fragment / add_fragment empties or bulk-filters `pending` other than the expiry sweep (retain on last_update/timeout in cleanup_expired): '
              'a cap that clears the backlog silently loses every incomplete message of a conforming peer', floor=1)
-    roots_ = [q for q in ctx.F.bodies if q.split('::{')[0] in (FA + '::start_fragment', FA + '::add_fragment')]
-    reach_ = sorted(q for q in P.reachable_from(roots_) if q.startswith('edp_client::fragmentation::'))
+    roots_ = [q for q in ctx.F.bodies if q.split('::{')[0] in (FA + '::start_fragment', FA + '::add_fragment', 'edp_client::connection::Connection::receive_message')]
+    ctx.anchor(any(q.startswith('edp_client::connection::Connection::receive_message') for q in roots_), 'Connection::receive_message (the receive path holds the assembler)')
+    reach_ = sorted(q for q in P.reachable_from(roots_) if q.startswith('edp_client::fragmentation::') or q.startswith('edp_client::connection::'))
     nb = 0
     for q in reach_:
         QB = P.B(q)
         for bb, t in QB.calls():
             if not t['args'] or 'pending' not in root_fields(QB, t['args'][0]):
+                continue
+            if q.startswith('edp_client::connection::') and 'fragment_assembler' not in root_fields(QB, t['args'][0]):
                 continue
             m = (callee_of(t)[0] or '').rsplit('::', 1)[-1]
             if m not in ('clear', 'drain', 'retain', 'extract_if', 'split_off', 'shrink_to', 'truncate'):
@@ -299,7 +302,7 @@ def run(ctx):
             if m == 'retain' and q.split('::{')[0] == FA + '::cleanup_expired':
                 ctx.ok('C09.3-no-bulk-discard', inst, 'the expiry sweep', ctx.where(QB, bb))
             else:
-                ctx.bad('C09.3-no-bulk-discard', inst, 'pending.%s() is reachable from start_fragment / add_fragment (in %s): fragments of OTHER sequences that are still incomplete and unexpired are thrown away, their messages are never delivered'
+                ctx.bad('C09.3-no-bulk-discard', inst, 'pending.%s() is reachable from the receive path / start_fragment / add_fragment (in %s): fragments of OTHER sequences that are still incomplete and unexpired are thrown away, their messages are never delivered'
                         % (m, q.rsplit('::', 1)[1]), ctx.where(QB, bb), key='WHO:%s:pending.%s' % (q.split('::{')[0], m))
     if nb == 0:
         ctx.ok('C09.3-no-bulk-discard', 'reachable-code', 'no bulk removal on `pending` reachable from the two entry points (%d functions scanned)' % len(reach_))
@@ -488,6 +491,93 @@ def run(ctx):
                         ctx.where(AB, sb), key='PAIR:%s::add_fragment:%s-store-without-refresh' % (FM, kind))
             else:
                 ctx.ok('C09.4-activity-refresh', kind, 'last_update is assigned on every path through the %s store' % kind, ctx.where(AB, sb))
+
+    # every fragment that comes in is offered to the record of its sequence
+    ctx.rule('C09.8-every-fragment-offered', 'in the assembler\'s add_fragment every path from entry to return hands the payload to FragmentedMessage::add_fragment (of the pending record or of a new one); '
+             'in start_fragment every path except the one that rejects the fragment count does: a fragment dropped because of what the assembler remembers of earlier sequences '
+             'leaves its message incomplete for ever', floor=2)
+    for q in (FA + '::add_fragment', FA + '::start_fragment'):
+        QB = ctx.body(q)
+        if QB is None:
+            continue
+        dl = [i for i in range(1, QB.b['argc'] + 1) if QB.local_name(i) == 'payload']
+        if not ctx.anchor(bool(dl), q + ':payload parameter'):
+            continue
+        d = QB.derived_locals(dl) | set(dl)
+        offers = set(bb for bb, t in QB.calls() if is_call_to(t, FM + '::add_fragment') and len(t['args']) >= 3 and any(l in d for l in QB._op_locals(t['args'][2])))
+        ctx.anchor(bool(offers), q + ': FragmentedMessage::add_fragment(.., payload)')
+        removed = set(offers)
+        n_rej = 0
+        if q.endswith('::start_fragment'):
+            # the arm that rejects the count (FragmentCount::new answered Err)
+            for bb, t in QB.calls():
+                if not any(n.endswith('::FragmentCount::new') for n in callee_names(t)):
+                    continue
+                nx = t.get('t')
+                seen_ = set()
+                while isinstance(nx, int) and nx not in seen_:
+                    seen_.add(nx)
+                    sd = QB.switch_on_discr(nx)
+                    if sd:
+                        ok_t = [b_ for v_, b_ in sd[2] if v_ == 0]
+                        n_rej += 1
+                        for v_, b_ in sd[2]:
+                            if v_ != 0:
+                                removed.add(b_)
+                        if ok_t and sd[3] not in ok_t:
+                            removed.add(sd[3])
+                        break
+                    tt = QB.blocks[nx]['t']
+                    nx = tt.get('t') if tt['k'] in ('goto', 'drop', 'falseedge') else None
+        rets = set(QB.return_blocks())
+        escaping = QB.reachable(0, removed_blocks=removed) & rets
+        inst = q.rsplit('::', 2)[-2] + '::' + q.rsplit('::', 1)[-1]
+        if escaping and q.endswith('::start_fragment') and n_rej == 0:
+            ctx.undecided('C09.8-every-fragment-offered', inst, 'the test that rejects an invalid fragment count (FragmentCount::new answering Err) was not found: cannot tell the rejecting return from a dropped fragment', ctx.where(QB))
+        elif offers and not escaping:
+            ctx.ok('C09.8-every-fragment-offered', inst, 'every return is behind a FragmentedMessage::add_fragment(.., payload) (%d call sites)' % len(offers), ctx.where(QB))
+        else:
+            ctx.bad('C09.8-every-fragment-offered', inst, '%s can return without handing the fragment to the record of its sequence: the fragment is lost and its message never completes' % inst,
+                    ctx.where(QB, sorted(escaping)[0] if escaping else None), key='DOM:%s:fragment-not-offered' % q)
+
+    # the buffer of early continuations is emptied by the transfer into the slots and by nothing else
+    ctx.rule('C09.7-buffer-only-transferred', 'entries leave pending_fragments only through the transfer into the slot vector (the drain in set_total_fragments whose items are stored into slots), or after it: '
+             'a clear / retain / remove / reassignment that can run before the transfer throws away continuations that arrived ahead of their header', floor=1)
+    n_bt = 0
+    for q in sorted(ctx.F.bodies):
+        if not q.startswith('edp_client::fragmentation::') or ctx.F.bodies[q]['kind'] not in ('Fn', 'AssocFn', 'Closure'):
+            continue
+        SB = P.B(q)
+        if any(st['rv']['k'] == 'agg' and st['rv'].get('adt') == FM and (st['pl']['l'] == 0 or 0 in SB.derived_locals([st['pl']['l']])) for bb, j, st in SB.stmts() if st['k'] == '='):
+            continue      # the constructor
+        removers, transfers = [], set()
+        writes = slot_writes(SB)
+        for bb, t in SB.calls():
+            nm = (callee_of(t)[0] or '').rsplit('::', 1)[-1]
+            if not t['args'] or 'pending_fragments' not in root_fields(SB, t['args'][0]):
+                continue
+            if nm in ('drain', 'into_iter', 'iter', 'remove', 'remove_entry', 'take', 'replace'):
+                dd = SB.derived_locals([t['dst']['l']])
+                moved = any(any(l in dd for l in SB._rv_locals(s_['rv'])) for wb, idx in writes for s_ in SB.blocks[wb]['s'] if s_['k'] == '=' and (s_['pl'].get('p') or []))
+                if moved:
+                    transfers.add(bb)
+                    continue
+                if nm in ('iter', 'into_iter') and 'mut' not in str(SB.local_ty(t['args'][0]['pl']['l']) if t['args'][0].get('pl') else ''):
+                    continue      # a read-only walk
+            if nm in ('clear', 'retain', 'extract_if', 'drain', 'remove', 'remove_entry', 'take', 'replace', 'truncate', 'split_off'):
+                removers.append((bb, nm))
+        for bb, st in field_assigns(SB, FM, 'pending_fragments'):
+            removers.append((bb, 'assignment'))
+        n_bt += len(transfers)
+        for bb, nm in removers:
+            inst = '%s:pending_fragments.%s' % (q.rsplit('::', 1)[1], nm)
+            if transfers and SB.all_paths_pass(0, transfers, to_blocks=[bb]):
+                ctx.ok('C09.7-buffer-only-transferred', inst, 'only after the transfer into the slots', ctx.where(SB, bb))
+            else:
+                ctx.bad('C09.7-buffer-only-transferred', inst, '%s empties or shrinks the buffer of continuations that arrived before their header without moving them into their slots: those fragments are lost and the sequence never completes'
+                        % q.rsplit('::', 1)[1], ctx.where(SB, bb), key='WHO:%s:pending_fragments.%s' % (q, nm))
+    if ctx.anchor(n_bt >= 1, 'the transfer of pending_fragments into the slot vector'):
+        ctx.ok('C09.7-buffer-only-transferred', 'transfer', '%d transfer site(s); nothing else takes entries out of the buffer before it' % n_bt)
 
     from ..families import check_sibling_ctors as _sib
     ctx.rule('C09.4-assembler-constructors', 'FragmentAssembler::new and ::with_timeout build the same assembler except for the timeout', floor=1)
